@@ -871,3 +871,113 @@ func checkForwarderWaits(c *Ctx, res *report.Result, rule string, minOps int) {
 		res.Undec(rule, "blocking channel operations of the forwarder", "", fmt.Sprintf("%d found, %d confirmed by hand", n, minOps))
 	}
 }
+
+// checkCounterTableWriters (O20.13): the per-shard counter table only grows. The streamActive field is assigned by the
+// constructor (a fresh slice) and by ReportStreamValue on the side of its growth test on which the index was found at
+// or beyond the length, with a slice obtained from the old one by slices.Grow / append (which keep every old element).
+// Any other assignment - a compaction, a reset - is a second writer of bookkeeping that every open stream relies on
+// for its deferred -1: a slot that is cut off while its stream is open comes back as a fresh zero, the -1 leaves it
+// negative, and that shard is reported wrongly for every later stream.
+func checkCounterTableWriters(c *Ctx, res *report.Result, rule string) {
+	n := 0
+	perFn := map[*ssa.Function]int{}
+	for _, f := range c.Prog.RepoFuncs() {
+		if f.Pkg == nil || f.Pkg.Pkg.Path() != proxyPkg || !isShippedFunc(f) || len(f.Blocks) == 0 {
+			continue
+		}
+		top := f
+		for top.Parent() != nil {
+			top = top.Parent()
+		}
+		for _, b := range f.Blocks {
+			for _, ins := range b.Instrs {
+				st, ok := ins.(*ssa.Store)
+				if !ok {
+					continue
+				}
+				fa, ok := st.Addr.(*ssa.FieldAddr)
+				if !ok || flow.FieldName(fa.X.Type(), fa.Field) != "streamActive" || !isNamedPtr(fa.X.Type(), "ReplicationStreamObserver") {
+					continue
+				}
+				n++
+				perFn[top]++
+				construct := fmt.Sprintf("%s: assignment #%d of streamActive keeps every counter", shortFn(top), perFn[top])
+				_, isMake := st.Val.(*ssa.MakeSlice)
+				if sl, isSl := st.Val.(*ssa.Slice); isSl {
+					if al, isAl := sl.X.(*ssa.Alloc); isAl && al.Heap {
+						isMake = true // make with a constant size: a fresh array, sliced
+					}
+				}
+				if isMake && strings.HasPrefix(top.Name(), "New") {
+					res.Hold(rule, construct, instrPos(c.Prog, ins), "the constructor's fresh table")
+					continue
+				}
+				// grown from the old table
+				grown := false
+				v := st.Val
+				for d := 0; d < 3 && v != nil; d++ {
+					switch x := v.(type) {
+					case *ssa.Slice:
+						if x.Low != nil {
+							v = nil
+						} else {
+							v = x.X
+						}
+					case *ssa.Call:
+						name := ""
+						if bi, isB := x.Call.Value.(*ssa.Builtin); isB {
+							name = bi.Name()
+						} else if sc := flow.StaticCallee(&x.Call); sc != nil {
+							if o := sc.Origin(); o != nil {
+								sc = o
+							}
+							if sc.Pkg != nil && sc.Pkg.Pkg.Path() == "slices" {
+								name = sc.Name()
+							}
+						}
+						if (name == "Grow" || name == "append") && len(x.Call.Args) > 0 {
+							if _, fld, isF := flow.FieldLoadOf(x.Call.Args[0]); isF && fld == "streamActive" {
+								grown = true
+							}
+						}
+						v = nil
+					default:
+						v = nil
+					}
+				}
+				why := ""
+				switch {
+				case top.Name() != "ReportStreamValue":
+					why = "the table is replaced outside ReportStreamValue's growth"
+				case !grown:
+					why = "the new table is not slices.Grow / append of the old one"
+				default:
+					// on the side of `idx >= len(streamActive)` on which the index is out of range
+					okSide := false
+					for _, g := range flow.NormGuards(flow.Guards(b)) {
+						bo, isB := g.Cond.(*ssa.BinOp)
+						if !isB || len(top.Params) < 2 {
+							continue
+						}
+						if below, _ := impliesIndexBelowLen(bo, !g.Side, top.Params[1]); below {
+							okSide = true // the other side of this test implies idx < len: this side is the growth
+						}
+					}
+					if !okSide {
+						why = "the assignment is not on the growing side of the test of the index against the table's length"
+					}
+				}
+				if why != "" && top.Name() != "ReportStreamValue" {
+					// a writer this rule has no model of: whether it keeps every live slot is not decided here, and an
+					// undecided obligation fails (section 6) - the counter table is bookkeeping shared by all streams
+					res.Undec(rule, construct, instrPos(c.Prog, ins), why+" (a second writer of the table): whether it keeps the slot of every stream that is still open is not decided by this rule - a slot that is cut off or zeroed while its stream is open comes back as a fresh zero, the stream's deferred -1 leaves it negative, and the shard is reported active when closed and inactive when open from then on")
+					continue
+				}
+				res.Check(why == "", rule, construct, instrPos(c.Prog, ins), "slices.Grow of the old table, on the side idx >= len", why+": a table that is shrunk, reset or rebuilt while streams are open loses their +1; the stream's deferred -1 then lands in a fresh slot and leaves it negative, and the shard is reported active when closed and inactive when open from then on")
+			}
+		}
+	}
+	if n < 2 {
+		res.Undec(rule, "assignments of streamActive", "", fmt.Sprintf("%d found, 2 confirmed by hand (constructor, growth)", n))
+	}
+}
